@@ -189,7 +189,7 @@ impl ZerokitMerkleTree for PmTree {
         self.tree
             .set_range(start, v.clone().into_iter())
             .map_err(|e| Report::msg(e.to_string()))?;
-        for i in start..v.len() {
+        for i in start..start + v.len() {
             self.cached_leaves_indices[i] = 1
         }
         Ok(())
@@ -251,9 +251,12 @@ impl ZerokitMerkleTree for PmTree {
     }
 
     fn update_next(&mut self, leaf: FrOf<Self::Hasher>) -> Result<()> {
+        let index = self.tree.leaves_set();
         self.tree
             .update_next(leaf)
-            .map_err(|e| Report::msg(e.to_string()))
+            .map_err(|e| Report::msg(e.to_string()))?;
+        self.cached_leaves_indices[index] = 1;
+        Ok(())
     }
 
     fn delete(&mut self, index: usize) -> Result<()> {
@@ -310,14 +313,27 @@ impl PmTree {
         let start = indices[0];
         let end = indices.last().unwrap() + 1;
 
-        let new_leaves = (start..end).map(|_| PmTreeHasher::default_leaf());
+        // Removing leaves never moves the number of leaves set
+        if end > self.tree.leaves_set() {
+            return Err(Report::msg("index to remove exceeds the leaves set"));
+        }
+
+        // Positions of the span that are not removed keep their value
+        let mut new_leaves = Vec::with_capacity(end - start);
+        for i in start..end {
+            if indices.contains(&i) {
+                new_leaves.push(PmTreeHasher::default_leaf());
+            } else {
+                new_leaves.push(self.tree.get(i)?);
+            }
+        }
 
         self.tree
             .set_range(start, new_leaves)
             .map_err(|e| Report::msg(e.to_string()))?;
 
-        for i in start..end {
-            self.cached_leaves_indices[i] = 0
+        for i in 0..indices.len() {
+            self.cached_leaves_indices[indices[i]] = 0
         }
         Ok(())
     }
